@@ -102,6 +102,7 @@ fn op_props(op: &Op) -> Props {
         Op::NewNode | Op::TreeLeaf | Op::TreeNest(_) => C07,
         Op::Write(_) => C08,
         Op::Clear | Op::Reserve(_) => C13,
+        Op::RoundTrip => C16,
     }
 }
 
@@ -121,7 +122,7 @@ pub fn op_class(m: &Model, op: &Op) -> &'static str {
                 "recycle"
             }
         }
-        Op::Clear | Op::Reserve(_) => "-",
+        Op::Clear | Op::Reserve(_) | Op::RoundTrip => "-",
     }
 }
 
@@ -289,6 +290,9 @@ pub fn enabled_ops(s: &State, n_max: usize, a_max: usize, profile: &crate::explo
             v.push(Op::Reserve(k));
         }
     }
+    if profile.round_trip && cfg!(feature = "it-deser") {
+        v.push(Op::RoundTrip);
+    }
     if profile.tree_ops {
         if room(1) {
             v.push(Op::TreeLeaf);
@@ -328,7 +332,7 @@ fn model_apply(m: &mut Model, op: &Op, new_slots: &[usize], vals: &[u8]) {
         }
         Op::Write(x) => m.payload[x] ^= payload::WRITE_BIT,
         Op::Clear => m.clear(),
-        Op::Reserve(_) => {}
+        Op::Reserve(_) | Op::RoundTrip => {}
     }
 }
 
@@ -423,6 +427,17 @@ pub fn step(s: &State, op: Op, cfg: &JudgeCfg) -> StepResult {
 
     // ---- outcome class -----------------------------------------------------------
     let mut succeeded = false;
+    if let (Op::RoundTrip, Outcome::Err(_, e) | Outcome::Panic(e)) = (op, &outcome) {
+        fails.push(mk(
+            C16,
+            "outcome",
+            true,
+            &op,
+            class,
+            "round-trip-failed",
+            format!("serialising and deserialising this arena failed: {e}; arena: {}", fmt_obs(&s.obs)),
+        ));
+    } else {
     match (&expect, &outcome) {
         (Expect::Succeeds, Outcome::Unit | Outcome::Id(_) | Outcome::Ok) => succeeded = true,
         (Expect::Succeeds, Outcome::Err(v, _)) => fails.push(mk(
@@ -502,6 +517,7 @@ pub fn step(s: &State, op: Op, cfg: &JudgeCfg) -> StepResult {
                 o.short()
             ),
         )),
+    }
     }
 
     // ---- atomicity of refusals and panics -----------------------------------------
@@ -659,6 +675,7 @@ pub fn step(s: &State, op: Op, cfg: &JudgeCfg) -> StepResult {
     let mut issued1 = s.issued.clone();
     let mut allocs1 = s.allocs;
     let structurally_ok = !fails.iter().any(|f| f.shaping);
+    let mut advanced = false;
     if succeeded && structurally_ok {
         // allocation order for TreeNest: v0 and v1 are children of p (v0 first), v2 under v1
         let mut ordered = new_slots.clone();
@@ -695,6 +712,7 @@ pub fn step(s: &State, op: Op, cfg: &JudgeCfg) -> StepResult {
             }
             allocs1 += ordered.len();
             model_apply(&mut model1, &op, &ordered, &vals);
+            advanced = true;
             if matches!(op, Op::Clear) {
                 cur1.clear();
                 issued1.clear();
@@ -718,6 +736,17 @@ pub fn step(s: &State, op: Op, cfg: &JudgeCfg) -> StepResult {
                 "id-changed" | "removed-but-should-be-live" => ps |= C08,
                 "link" if is_new => ps |= C12 | C07,
                 _ => {}
+            }
+            if matches!(op, Op::RoundTrip) {
+                // the copy is what the user goes on with: whatever differs is also a failure of the
+                // property that speaks about that aspect of a reachable arena
+                ps |= match kind {
+                    "id-changed" => C11 | C06,
+                    "removed-but-should-be-live" | "live-but-should-be-removed" => C11 | C12 | C06,
+                    "link" => C01,
+                    "count" => C11 | C07,
+                    _ => 0,
+                };
             }
             fails.push(mk(
                 ps,
@@ -815,6 +844,37 @@ pub fn step(s: &State, op: Op, cfg: &JudgeCfg) -> StepResult {
         }
     }
 
+    // ---- read-back twin: a removed node addressed by the id the arena itself reports for it ----
+    if let Op::Insert(ins, a, b) = op {
+        if cfg.target & (C12 | C05) != 0 && (!m.is_live(a) || !m.is_live(b)) {
+            let rb = |x: usize| if m.is_live(x) { s.cur[x] } else { s.obs[x].id };
+            let (ia, ib) = (rb(a), rb(b));
+            if ia != s.cur[a] || ib != s.cur[b] {
+                let mut tw = s.arena.clone();
+                let o1 = ops::checked_insert(&mut tw, ins, ia, ib);
+                let bad1 = !matches!(o1, Outcome::Err(..)) || tw != s.arena;
+                let mut tw2 = s.arena.clone();
+                let o2 = ops::unchecked_insert(&mut tw2, ins, ia, ib);
+                let bad2 = !matches!(o2, Outcome::Panic(_)) || tw2 != s.arena;
+                if bad1 || bad2 {
+                    fails.push(mk(
+                        C12 | C05,
+                        "readback-twin",
+                        false,
+                        &op,
+                        class,
+                        if bad1 { "removed-node-accepted-under-its-read-back-id" } else { "unchecked-form-accepts-read-back-id" },
+                        format!(
+                            "with the removed node addressed by the id get_node_id() reports for it ({} / {}): checked form {} (arena {}), unchecked form {} (arena {})",
+                            fmt_id(Some(ia)), fmt_id(Some(ib)), o1.short(), if tw == s.arena { "unchanged" } else { "changed" },
+                            o2.short(), if tw2 == s.arena { "unchanged" } else { "changed" }
+                        ),
+                    ));
+                }
+            }
+        }
+    }
+
     // ---- C08 drop ledger ------------------------------------------------------------------------
     if let Some(dropped) = dropped {
         let live0 = m.live_payloads();
@@ -823,7 +883,8 @@ pub fn step(s: &State, op: Op, cfg: &JudgeCfg) -> StepResult {
                 Op::Remove(x) => vec![m.payload[x]],
                 Op::RemoveSubtree(x) => m.subtree(x).iter().map(|&y| m.payload[y]).collect(),
                 Op::Write(x) => vec![m.payload[x]],
-                Op::Clear => live0.clone(),
+                // clear() drops every payload; a round trip replaces the arena, dropping the original
+                Op::Clear | Op::RoundTrip => live0.clone(),
                 _ => vec![],
             }
         } else {
@@ -897,6 +958,11 @@ pub fn step(s: &State, op: Op, cfg: &JudgeCfg) -> StepResult {
         dbg: 0,
     };
     next.rekey();
+    // properties that speak about which nodes are live *by the history of calls* are evaluated
+    // on a successor the model cannot follow too, against the model's expectation of that call
+    if advanced && fails.iter().any(|f| f.shaping) {
+        fails.extend(crate::judges::liveness_observers(&next, cfg.target));
+    }
     // configuration-independent: Debug renderings and outcome texts only, no derived hashes of library types
     let digest = obs::hash64(&(s.dbg, &op, outcome.digest_form(), next.dbg));
     StepResult {
